@@ -200,15 +200,11 @@ def apply_op(ctx, w, op):
       def observe(self, where):
         pass
     st = {"probe": w.x}
-    # A QActivation configured with a STRING serialises that string, so a
-    # factor between 0 and 1 cannot survive a restart there (the property
-    # speaks of trained models); everywhere else the live quantizer object is
-    # serialised, so the schedule may also be interrupted half-way.
-    has_string_act = any(
-        type(l).__name__ == "QActivation" and isinstance(l.activation, str)
-        for l in w.model.layers)
+    # every quantized layer (QActivation configured with a string included)
+    # serialises its live quantizer objects, so the schedule may also be
+    # interrupted half-way
     steps = 3 + int(op.get("steps", 3))
-    if op.get("stop_mid") and not has_string_act:
+    if op.get("stop_mid"):
       cbspec = dict(cbspec, start=0, finish=6, use_ste=bool(op.get(
           "use_ste", True)))
       cb = p_c07.build_callback(cbspec)
@@ -527,6 +523,8 @@ def directed():
   S6 = {"str": "quantized_bits(6,2,1)"}
   SA = {"str": "quantized_relu(4,1)"}
   string_layers = [
+      ("vec", {"t": "QActivation", "aq": {"str": "quantized_bits(4,0,1)"}}),
+      ("vec", {"t": "QActivation", "aq": SA}),
       ("vec", {"t": "QDense", "units": 3, "use_bias": True, "kq": S, "bq": S6,
                "aq": SA}),
       ("img", {"t": "QConv2D", "filters": 2, "kernel": 2, "strides": 1,
